@@ -121,19 +121,66 @@ theorem sim_dassert (c : Bool) (site : String) : Sim (dassert c site) := by
   · cases h
   · cases h; simp
 
+/-! ## pure state functions that recurse with a state-dependent fuel: they do not read the erased fields -/
+
+theorem valueWith_erase (proj : Nat → Val → Val) (s : State) (fuel n : Nat) :
+    (erase s).valueWith proj fuel n = s.valueWith proj fuel n := by
+  induction fuel generalizing n with
+  | zero => rfl
+  | succ fuel ih =>
+    simp only [State.valueWith]
+    have : (erase s).nodeD n = s.nodeD n := rfl
+    rw [this]
+    split
+    · rw [ih]
+    · rfl
+
+theorem value_erase (env : Env) (s : State) (n : Nat) : (erase s).value env n = s.value env n :=
+  valueWith_erase env.proj s _ n
+
+theorem tryGetValue_erase (env : Env) (s : State) (o : Nat) :
+    (erase s).tryGetValue env o = s.tryGetValue env o := by
+  unfold State.tryGetValue
+  simp only [value_erase]
+  rfl
+
+theorem nodeUpdate_erase (env : Env) (s : State) (n : Nat) :
+    (erase s).nodeUpdate env n = s.nodeUpdate env n := by
+  unfold State.nodeUpdate
+  simp only [value_erase]
+  rfl
+
+theorem aliveSet_erase (s : State) : (erase s).aliveSet = s.aliveSet := rfl
+theorem isAlive_erase (s : State) (n : Nat) : (erase s).isAlive n = s.isAlive n := rfl
+
 /-- extensible: the `Sim` lemmas proved so far -/
 syntax "sim_lemma" : tactic
 macro_rules | `(tactic| sim_lemma) => `(tactic| exact sim_dassert _ _)
 macro_rules | `(tactic| sim_lemma) => `(tactic| exact sim_assertM _ _)
 
+/-- the side condition "this block does not read the erased fields" -/
+macro "sim_side" : tactic => `(tactic| first
+  | exact fun _ => rfl
+  | (intro s
+     simp only [value_erase, tryGetValue_erase, nodeUpdate_erase, aliveSet_erase, isAlive_erase] <;> rfl))
+
+set_option hygiene false in
+/-- induction hypotheses, by their conventional names -/
+macro "sim_ih" : tactic => `(tactic| with_reducible first
+  | exact ih | exact ih _ | exact ih _ _ | exact ih _ _ _ | exact ih _ _ _ _ | exact ih _ _ _ _ _
+  | exact ih1 _ | exact ih1 _ _ | exact ih1 _ _ _
+  | exact ih2 _ | exact ih2 _ _ | exact ih2 _ _ _ | exact ih2 _ _ _ _
+  | exact ih3 _ | exact ih3 _ _)
+
 macro "sim_step" : tactic => `(tactic| first
   | assumption
+  | sim_ih
   | with_reducible sim_lemma
   | with_reducible exact Sim.pure _
   | with_reducible exact Sim.throw _
   | with_reducible exact Sim.panic _
-  | ((with_reducible refine Sim.modify _ ?_); exact fun _ => rfl)
-  | ((with_reducible refine Sim.get_bind ?hk ?h); (case hk => exact fun _ => rfl); intro _)
+  | ((with_reducible refine Sim.modify _ ?_); sim_side)
+  | ((with_reducible refine Sim.get_bind ?hk ?h); (case hk => sim_side); intro _)
   | with_reducible apply Sim.forIn
   | with_reducible apply Sim.mapM
   | with_reducible apply Sim.map
